@@ -2,7 +2,7 @@
     results, used by the generated [cases_*.v] files of the correspondence check.
     Nothing here is proved or used in a proof. *)
 From Coq Require Import Floats List NArith ZArith Bool.
-From Cfr.theories Require Import Num FInst Tree Strat Eval Solve.
+From Cfr.theories Require Import Num FInst Tree Strat Eval Solve Incr VanillaMulti.
 Import ListNotations.
 
 Inductive out :=
@@ -195,6 +195,88 @@ Definition f_solve (r : res fgame) (m : method) (draw : @oracle FNum) (p : optio
         SolveOk s b ran
   | Ok _, None => SolveParamsPanic
   | _, _ => SolveSkip
+  end.
+
+(** The model of the multi-threaded unsampled / chance-sampled solver ([VanillaMulti.solve_multi]: frontier, tasks,
+    payoff cache, cached traversal) executed under a concrete schedule of the atomic increments.  Over the reals
+    every schedule gives [solve_single]'s result (C06/C07); at binary64 schedules differ by rounding, which is how the
+    check tells a thread-count difference that the specified algorithm itself shows from a defect.
+    Schedules: 0 as listed, 1 reversed, 2 even positions then odd ones, 3 second half first. *)
+Fixpoint alt_split {A} (l : list A) : list A * list A :=
+  match l with
+  | [] => ([], [])
+  | x :: r => let (a, b) := alt_split r in (x :: b, a)
+  end.
+Definition sched_of (k : N) (_ : N) (l : list (@incr FNum)) : list (@incr FNum) :=
+  match k with
+  | 0%N => l
+  | 1%N => rev l
+  | 2%N => let (a, b) := alt_split l in a ++ b
+  | _ => let h := Nat.div2 (length l) in skipn h l ++ firstn h l
+  end.
+
+Definition f_solve_multi (r : res fgame) (m : method) (draw : @oracle FNum) (p : option fparams)
+           (budget : N) (max_reg : float) (threads : N) (k : N) : solved :=
+  match r, p with
+  | Ok g, Some p =>
+      match m with
+      | External => SolveSkip
+      | _ =>
+          let sampled := match m with Sampled => true | _ => false end in
+          let fuel := N.to_nat (N.min budget fuel_cap) in
+          let '(s, b, ran) := @solve_multi FNum g sampled draw p fuel (fun b => PrimFloat.ltb b max_reg)
+                                           (N.to_nat (3 * threads)) (sched_of k) in
+          SolveOk s b ran
+      end
+  | Ok _, None => SolveParamsPanic
+  | _, _ => SolveSkip
+  end.
+
+(** Conditioning of the regret sums (used only to judge thread-count differences): for each of the first [T]
+    iterations of the unsampled / chance-sampled solver, the smallest ratio
+    [|cum_regret after the pass| / (|cum_regret before| + sum of |increments| to that cell)] over all cells that
+    receive an increment.  A ratio of (almost) zero means the cell's value is the result of cancellation: its sign, on
+    which regret matching branches, depends on the order in which the workers' atomic additions happen to be made. *)
+Definition cell_terms (incs : list (@incr FNum)) (pl : bool) (i a : nat) : float :=
+  fold_left (fun (acc : float) (x : @incr FNum) =>
+               match x with
+               | @IReg _ pl' i' a' v => if Bool.eqb pl pl' && Nat.eqb i i' && Nat.eqb a a' then acc + abs (v : float) else acc
+               | @IRegAll _ pl' i' v => if Bool.eqb pl pl' && Nat.eqb i i' then acc + abs (v : float) else acc
+               | @IStrat _ _ _ _ => acc
+               end) incs 0%float.
+
+Definition iter_cancel (g : fgame) (sampled : bool) (draw : @oracle FNum) (it : N) (st : @pstate FNum) : float :=
+  let incs := @vincs FNum (g_chance g) sampled draw (it - 1)%N (@strat_view FNum st) (g_root g) 1 1 1 in
+  let st1 := fold_left (@apply_incr FNum) incs st in
+  let per_player (pl : bool) :=
+    fold_left (fun (acc : float) (ii : nat * @rinfo FNum) =>
+                 let i := fst ii in
+                 let before : list float := @cum_regret FNum (snd ii) in
+                 let after : list float := @cum_regret FNum (@ri_get FNum st1 pl i) in
+                 fold_left (fun (acc2 : float) (ab : nat * float) =>
+                              let a := fst ab in
+                              let terms := abs (snd ab) + cell_terms incs pl i a in
+                              if 0 <? cell_terms incs pl i a
+                              then f_min acc2 (abs (nth a after 0%float) / terms) else acc2)
+                           (combine (seq 0 (length before)) before) acc)
+              (combine (seq 0 (length (@ps_get FNum st pl))) (@ps_get FNum st pl)) infinity in
+  f_min (per_player true) (per_player false).
+
+Fixpoint cancel_loop (g : fgame) (m : method) (draw : @oracle FNum) (p : fparams) (n : nat) (it : N)
+         (st : @pstate FNum) : list float :=
+  match n with
+  | O => []
+  | S n' =>
+      let sampled := match m with Sampled => true | _ => false end in
+      iter_cancel g sampled draw it st ::
+      cancel_loop g m draw p n' (it + 1)%N (fst (@one_iter FNum g m draw p it st))
+  end.
+
+Definition o_cancel (r : res fgame) (m : method) (draw : @oracle FNum) (p : option fparams) (budget : N) : out :=
+  match r, p, m with
+  | Ok g, Some p, External => o_skip
+  | Ok g, Some p, _ => o_ok [ofl (cancel_loop g m draw p (N.to_nat (N.min budget 400)) 1%N (@init_state FNum g))]
+  | _, _, _ => o_skip
   end.
 
 Definition p_of_solved (s : solved) : option prof :=
